@@ -108,8 +108,19 @@ def perturbations(v):
 def _argv(w, outdir):
     argv = genargs.build_argv({k: x for k, x in w.items() if not k.startswith('_')}, outdir)
     if w.get('_drop_o'):
-        i = argv.index('-o') if '-o' in argv else argv.index('--outputdirectory')
-        del argv[i:i + 2]
+        out = []
+        skip = False
+        for t in argv:
+            if skip:
+                skip = False
+                continue
+            if t in ('-o', '--outputdirectory'):
+                skip = True
+                continue
+            if t.startswith('-o=') or t.startswith('--outputdirectory='):
+                continue
+            out.append(t)
+        argv = out
     return argv
 
 
